@@ -524,3 +524,35 @@ M('C20', 'initializer-saved-under-current-epoch', 'mithril-signer/src/runtime/ru
   '                .save_protocol_initializer(epoch_offset_to_recording_epoch, protocol_initializer)', '                .save_protocol_initializer(epoch, protocol_initializer)', ['offset-site'], 'key stored under the wrong epoch')
 M('C20', 'epoch-change-ignored', SSM,
   '        if current_time_point.epoch > epoch {\n            Ok(EpochStatus::NewEpoch(current_time_point.epoch))', '        if current_time_point.epoch > epoch + 1 {\n            Ok(EpochStatus::NewEpoch(current_time_point.epoch))', ['epoch-changed'], 'keeps signing one epoch too long')
+
+# ---------------------------------------------------------------- added after seeds C06-2 / C12-1 / C12-2 (other sites of the same kind)
+M('C06', 'vk-ord-truncated', STM + 'signature_scheme/bls_multi_signature/verification_key.rs',
+  'for (i, j) in self_bytes.iter().zip(other_bytes.iter()) {', 'for (i, j) in self_bytes.iter().zip(other_bytes.iter()).skip(1) {',
+  ['complete canonical encodings'], 'first byte (flags + top bits) left out of the key order')
+IDB = 'internal/cardano-node/mithril-cardano-node-internal-database/src/'
+M('C12', 'cache-get-other-key', IDB + 'digesters/cache/json_provider.rs',
+  'let value = values.get(&immutable.filename).map(|f| f.to_owned());', 'let value = values.get(&immutable.number.to_string()).map(|f| f.to_owned());',
+  ['own name'], 'cache read under a key that is not the file name')
+M('C12', 'walker-depth-2', IDB + 'entities/immutable_file.rs',
+  '        .max_depth(1)\n        .into_iter()\n        .filter_entry(is_immutable)', '        .max_depth(2)\n        .into_iter()\n        .filter_entry(is_immutable)',
+  ['walker depth'], 'sub-directories of immutable/ are listed')
+M('C12', 'cache-store-shifted', IDB + 'digesters/cardano_immutable_digester.rs',
+  '.map(|(file, hash)| (file.filename.clone(), hash.clone()))\n                .collect();',
+  '.map(|(file, _hash)| file.filename.clone())\n                .zip(computed_immutables_digests.entries.values().cloned())\n                .collect();',
+  ['positional'], 'names of the new entries zipped with the digests of all entries')
+
+# ---------------------------------------------------------------- C16 after the F8 repair
+MS = COMMON + 'protocol/multi_signer.rs'
+M('C16', 'party-binding-removed', MS,
+  """        if self.registered_verification_keys.get(&single_signature.party_id) != Some(&vk) {
+            return Err(anyhow!(
+                "Signature was not issued with the key registered by party: '{}'",
+                single_signature.party_id
+            ));
+        }
+""", """        let _ = anyhow!("unused {}", self.registered_verification_keys.len());
+""", ['key registered by signature.party_id'], 'F8 comes back')
+M('C16', 'party-binding-presence-only', MS,
+  'if self.registered_verification_keys.get(&single_signature.party_id) != Some(&vk) {',
+  'if !self.registered_verification_keys.contains_key(&single_signature.party_id) {',
+  ['key registered by signature.party_id'], 'the claimed party must be registered but its key is not compared with the slot key')
